@@ -393,7 +393,15 @@ func (rw *rewriter) r4(substs []subst) {
 	}
 	sort.Strings(names)
 	for _, n := range names {
-		astutil.AddNamedImport(rw.fset, rw.file, n, need[n])
+		already := false
+		for _, imp := range rw.file.Imports {
+			if strings.Trim(imp.Path.Value, `"`) == need[n] && (imp.Name == nil || imp.Name.Name == n) {
+				already = true // same package already imported under the same (default) name
+			}
+		}
+		if !already {
+			astutil.AddNamedImport(rw.fset, rw.file, n, need[n])
+		}
 	}
 	// imports that became unused are removed
 	for _, imp := range rw.file.Imports {
